@@ -52,6 +52,20 @@ def handle : List String → String
     | some es =>
       let acts := BS.ParseLink.actions cfg (St.init cfg) es
       dumpHeap (BS.ParseLink.prun BS.ParseLink.PSt.init acts).heap
+  | ["retry", pre, cont, atts] =>
+    -- `|`-separated strategies, each `-` or `;`-separated events; all but the last were rejected after sending their events
+    let cfg := mkCfg pre cont
+    match (atts.splitOn "|").mapM (fun a => (splitNE ";" (if a == "-" then "" else a)).mapM parseEv) with
+    | none => "bad-op"
+    | some ess =>
+      let n := ess.length
+      let attempts := ess.zipIdx.map fun (es, i) => ({ evs := es, rejected := i + 1 < n } : Attempt)
+      match parseLoop cfg (St.init cfg) attempts with
+      | none => "rejected"
+      | some ds => String.join (ds.map showDoc)
+  | ["void", rule, name] =>
+    let r : Option (List Name) := if rule == "*" then none else some ((splitNE "." (if rule == "-" then "" else rule)).map ofS)
+    if canBeEmptyElement r (ofS name) then "1" else "0"
   | [which, pre, cont, evs] =>
     let cfg := mkCfg pre cont
     match (splitNE ";" evs).mapM parseEv with
